@@ -59,6 +59,17 @@ From inside a callable (closure over the scheduler):
                            runs alone (no switching) until it calls this or
                            finishes: a "staggered" start.
 
+`policy=` (token mode, optional): an object with `decide(sched, idx, loc)` that
+is asked at every scheduling point while switching is enabled, before the
+seeded random / PCT rule: it returns `NotImplemented` (the default rule
+decides), `None` (stay) or the index of the worker to run next (kind 'w' in the
+trace; ignored if that worker cannot run).  `WindowPolicy` below pre-empts
+densely (lock-step, random strides, coin flips, or an enumerated list of
+pre-emption depths) inside windows that the harness opens with `arm()` and
+closes with `disarm()` - e.g. from the moment all workers were released from a
+rendezvous until each has returned from the call that follows it - and leaves
+the rest of the session to the default rule.
+
 `mode='free'` is the cross-check: same callables, same target LINE events, but
 real threads without a token and real locks; at each LINE event the thread
 does `time.sleep(free_sleep)` with probability `p_switch` (and the interpreter
@@ -428,7 +439,7 @@ class Scheduler:
   def __init__(self, seed, targets=(), p_switch=0.1, change_points=0, horizon=2000,
                mode='token', watchdog_s=30.0, solo_first=False, first=None,
                patch_locks=True, free_sleep=0.0, switch_interval=1e-5,
-               deadlock_s=2.0):
+               deadlock_s=2.0, policy=None):
     if mode not in ('token', 'free'):
       raise SchedulerError(f'unknown mode {mode!r}')
     self.seed = seed
@@ -441,6 +452,7 @@ class Scheduler:
     self.patch_locks = patch_locks and mode == 'token'
     self.free_sleep = free_sleep
     self.switch_interval = switch_interval
+    self._policy = policy if mode == 'token' else None
     self._targets = [t for t in targets if isinstance(t, str)]
     self._target_preds = [t for t in targets if not isinstance(t, str)]
     self._rng = random.Random(f'sched/{seed}')
@@ -493,6 +505,11 @@ class Scheduler:
     elif self._current is w:
       self._point(w, (str(tag), 0))
 
+  def runnable_indices(self, exclude=None):
+    """Indices of the workers that could run now (for a `policy`)."""
+    return [x.idx for x in self._workers
+            if not x.done and x.blocked_on is None and x.idx != exclude]
+
   # -- monitoring callbacks --------------------------------------------------
   def _is_target(self, filename):
     r = self._file_cache.get(filename)
@@ -543,6 +560,15 @@ class Scheduler:
     self._points += 1
     if not self._switching:
       return
+    pol = self._policy
+    if pol is not None:
+      d = pol.decide(self, w.idx, loc)
+      if d is not NotImplemented:
+        if d is not None and d != w.idx:
+          nxt = self._workers[d]
+          if not nxt.done and nxt.blocked_on is None:
+            self._switch(w, nxt, 'w', loc)
+        return
     k = self._points
     if k in self._change_points:
       self._low_prio -= 1
@@ -812,6 +838,111 @@ class Scheduler:
       _mon.free_tool_id(tool)
       self._tool = None
       self._codes = []
+
+
+# ---------------------------------------------------------------------------
+# Window policy: dense pre-emption where the harness says the first-use /
+# simultaneous-arrival windows are.
+# ---------------------------------------------------------------------------
+
+
+class WindowPolicy:
+  """Pre-empts densely while a window is open; see the module docstring.
+
+  kind:
+    'lockstep'  round robin over the runnable workers, `stride` statements each;
+    'stutter'   round robin, a fresh random number 1..`stride_max` of statements
+                per turn (the relative offset of the workers does a random walk);
+    'dense'     after every statement, with probability `p`, a random other
+                runnable worker continues;
+    'preempt'   `quotas` = (q1, q2, ...): the running worker is pre-empted after
+                q1 statements, the next one after q2, ...; afterwards workers
+                run until they block or finish (enumerable depth-d schedules).
+  A window ends with `disarm()` or after `cap` scheduling points.  `windows`
+  collects, per window, the list of (from, to, location) of the policy's own
+  switches - the explored interleaving of that window.
+  """
+
+  KINDS = ('lockstep', 'stutter', 'dense', 'preempt')
+
+  def __init__(self, seed, kind, stride=1, stride_max=3, p=0.5, quotas=(), cap=600):
+    if kind not in self.KINDS:
+      raise SchedulerError(f'unknown window policy {kind!r}')
+    self.kind = kind
+    self.stride = max(1, int(stride))
+    self.stride_max = max(1, int(stride_max))
+    self.p = float(p)
+    self.quotas = tuple(int(q) for q in quotas)
+    self.cap = cap
+    self._rng = random.Random(f'window/{seed}')
+    self.active = False
+    self.windows = []
+    self._events = 0
+    self._cur = None
+    self._since = 0
+    self._quota = 1
+    self._turn = 0
+
+  def arm(self, tag='window'):
+    if self.active:
+      return
+    self.active = True
+    self.windows.append([tag])
+    self._events = 0
+    self._cur = None
+    self._since = 0
+    self._turn = 0
+    self._quota = self._next_quota()
+
+  def disarm(self):
+    self.active = False
+
+  def _next_quota(self):
+    if self.kind == 'lockstep':
+      return self.stride
+    if self.kind == 'stutter':
+      return self._rng.randint(1, self.stride_max)
+    if self.kind == 'preempt':
+      k = self._turn
+      return self.quotas[k] if k < len(self.quotas) else None
+    return 1
+
+  def decide(self, sched, idx, loc):
+    if not self.active:
+      return NotImplemented
+    self._events += 1
+    if self._events > self.cap:
+      self.active = False
+      return NotImplemented
+    if idx != self._cur:          # the token moved by a block / finish
+      self._cur, self._since = idx, 0
+    self._since += 1
+    if self.kind == 'dense':
+      if self._rng.random() >= self.p:
+        return None
+      others = sched.runnable_indices(idx)
+      if not others:
+        return None
+      nxt = others[self._rng.randrange(len(others))]
+    else:
+      if self._quota is None or self._since < self._quota:
+        return None
+      others = sched.runnable_indices(idx)
+      if not others:
+        self._since = 0
+        return None
+      later = [o for o in others if o > idx]
+      nxt = min(later) if later else min(others)
+      self._turn += 1
+      self._quota = self._next_quota()
+    self.windows[-1].append((idx, nxt, loc))
+    self._cur, self._since = nxt, 0
+    return nxt
+
+  def window_hashes(self):
+    """One digest per window that saw at least one policy switch."""
+    return [hashlib.blake2b(repr(w).encode(), digest_size=8).hexdigest()
+            for w in self.windows if len(w) > 1]
 
 
 # ---------------------------------------------------------------------------
